@@ -14,7 +14,7 @@ RULE = ('Hypothesis-generated world plans: stack in {Thrift (aperture / resurrec
         'while it is still opening with first-connect delays from 1 ms to longer than the timeout, per endpoint a connect '
         'script (accept after d / refuse / hang) and a per-request script (reply after d / never / application error / close / '
         'reset / half a frame then close / mux ERROR, NACK, Rerr), server kill / down / up / silent events, 1-8 calls with '
-        'timeout T in {20, 50, 100, 250 ms, 1 s}; delays are drawn from a palette centred on each deadline (T-11 .. T+11 ms, 0, '
+        'timeout T in {20, 50, 100, 250 ms, 1 s}; a sixth of the plans run for ~5 s with an aperture that jitters every 1-2 s over 2-4 endpoints with connect delays up to 2.5 s; delays are drawn from a palette centred on each deadline (T-11 .. T+11 ms, 0, '
         '1, 5 ms, 10 T). Oracle per call: completes exactly once by the end of the run, value/exception at the end equal to '
         'the first completion, outcome is the echo of one endpoint / an error / TimeoutError, completion <= ceil10ms(t+T) + '
         '1 ms, TimeoutError never before t+T - 1 ms. Non-trivial = some reply, fault or open completion fell within 15 ms of a '
@@ -90,8 +90,38 @@ def plans(draw, stacks=('thrift', 'thriftmux'), max_calls=8):
   }
 
 
+@st.composite
+def jitter_plans(draw):
+  """Long-ish runs with an aperture that re-shuffles its members every 1-2 s while calls are in flight: more endpoints
+  than the aperture uses, slow connects for the ones swapped in, unanswered or slowly answered calls."""
+  T = draw(st.sampled_from([250, 1000]))
+  stack = draw(st.sampled_from(['thriftmux', 'thriftmux', 'thrift']))
+  nports = draw(st.integers(2, 4))
+  ports = [9001 + i for i in range(nports)]
+  servers = {}
+  for p in ports:
+    servers[str(p)] = {
+        'connect': [draw(st.sampled_from([['accept', 1], ['accept', 1], ['accept', 300], ['accept', 900], ['accept', 2500], ['refuse', 400]]))
+                    for _ in range(3)],
+        'requests': draw(st.lists(st.sampled_from([['never', 0], ['never', 0], ['reply', 5], ['reply', T - 10], ['reply', T + 10], ['reply', 3 * T]]), max_size=6)),
+        'timeline': []}
+  calls = []
+  for i in range(draw(st.integers(2, 8))):
+    calls.append({'at': draw(st.integers(0, 2600)), 'method': 'hi', 'arg': 'c%d' % i,
+                  'timeout_ms': draw(st.sampled_from([None, None, 250, 1000])), 'via_dispatcher': draw(st.booleans())})
+  return {
+      'seed': draw(st.integers(0, 2 ** 16)), 'stack': stack, 'iface': 'hello', 'client_id': None,
+      'balancer': 'aperture', 'aperture': {'jitter_min_sec': 1, 'jitter_max_sec': draw(st.integers(1, 2)),
+                                           'min_size': draw(st.integers(1, 2)), 'max_size': nports},
+      'pool': None, 'timeout_ms': T, 'wait_open': True,
+      'serverset': {'kind': 'uri', 'initial': ports, 'events': []},
+      'servers': servers, 'calls': calls, 'run_ms': 2600 + 1000 + 1200, 'close_at': None,
+  }
+
+
 def strategy(tier):
-  return plans(max_calls=8 if tier == 'quick' else 16)
+  base = plans(max_calls=8 if tier == 'quick' else 16)
+  return st.one_of(base, base, base, base, base, jitter_plans())
 
 
 def check_calls(tr, prop=ID):
